@@ -94,6 +94,18 @@ class Encoder(object):
             ipaddress.IPv6Address: self.cql_encode_ipaddress
         })
 
+    def _encoder_for(self, val):
+        """
+        The encoder function registered for the type of `val` or, for an instance
+        of a subclass (e.g. a ``str`` subclass), for its nearest registered base;
+        :meth:`cql_encode_object` if there is none.
+        """
+        mapping = self.mapping
+        for t in type(val).__mro__:
+            if t in mapping:
+                return mapping[t]
+        return self.cql_encode_object
+
     def cql_encode_none(self, val):
         """
         Converts :const:`None` to the string 'NULL'.
@@ -170,7 +182,7 @@ class Encoder(object):
         Converts a sequence to a string of the form ``(item1, item2, ...)``.  This
         is suitable for ``IN`` value lists.
         """
-        return '(%s)' % ', '.join(self.mapping.get(type(v), self.cql_encode_object)(v)
+        return '(%s)' % ', '.join(self._encoder_for(v)(v)
                                      for v in val)
 
     cql_encode_tuple = cql_encode_sequence
@@ -185,8 +197,8 @@ class Encoder(object):
         This is suitable for ``map`` type columns.
         """
         return '{%s}' % ', '.join('%s: %s' % (
-            self.mapping.get(type(k), self.cql_encode_object)(k),
-            self.mapping.get(type(v), self.cql_encode_object)(v)
+            self._encoder_for(k)(k),
+            self._encoder_for(v)(v)
         ) for k, v in val.items())
 
     def cql_encode_list_collection(self, val):
@@ -194,21 +206,21 @@ class Encoder(object):
         Converts a sequence to a string of the form ``[item1, item2, ...]``.  This
         is suitable for ``list`` type columns.
         """
-        return '[%s]' % ', '.join(self.mapping.get(type(v), self.cql_encode_object)(v) for v in val)
+        return '[%s]' % ', '.join(self._encoder_for(v)(v) for v in val)
 
     def cql_encode_set_collection(self, val):
         """
         Converts a sequence to a string of the form ``{item1, item2, ...}``.  This
         is suitable for ``set`` type columns.
         """
-        return '{%s}' % ', '.join(self.mapping.get(type(v), self.cql_encode_object)(v) for v in val)
+        return '{%s}' % ', '.join(self._encoder_for(v)(v) for v in val)
 
     def cql_encode_all_types(self, val, as_text_type=False):
         """
         Converts any type into a CQL string, defaulting to ``cql_encode_object``
         if :attr:`~Encoder.mapping` does not contain an entry for the type.
         """
-        encoded = self.mapping.get(type(val), self.cql_encode_object)(val)
+        encoded = self._encoder_for(val)(val)
         if as_text_type and not isinstance(encoded, str):
             return encoded.decode('utf-8')
         return encoded
